@@ -260,6 +260,10 @@ func genReq(t *rapid.T, label string, intact *bool) Req {
 			{"searchSize 24", func(b map[string]any) { vam(b)["searchSize"] = 24.0 }},
 			{"degreeBound 65", func(b map[string]any) { vam(b)["degreeBound"] = 65.0 }},
 			{"alpha 1.6", func(b map[string]any) { vam(b)["alpha"] = 1.6 }},
+			{"alpha that is not a number (a string in JSON, NaN in MessagePack)", func(b map[string]any) { vam(b)["alpha"] = "$NaN" }},
+			{"binary quantiser threshold that is not a finite number (a string in JSON, NaN / infinity in MessagePack)", func(b map[string]any) {
+				vam(b)["quantizer"] = map[string]any{"type": "binary", "binary": map[string]any{"threshold": rapid.SampledFrom([]string{"$NaN", "$Inf", "$-Inf"}).Draw(t, label+"-nfth"), "distanceMetric": "hamming"}}
+			}},
 			{"unknown index type", func(b map[string]any) { b["indexSchema"].(map[string]any)["vector"].(map[string]any)["type"] = "btree" }},
 			{"index parameters missing", func(b map[string]any) { delete(b["indexSchema"].(map[string]any)["vector"].(map[string]any), "vectorVamana") }},
 			{"product quantiser with 1 centroid", func(b map[string]any) {
@@ -934,9 +938,13 @@ func intFields(v any, under string) any {
 				x[k] = int64(f)
 				continue
 			}
+			if f, ok := e.(float64); ok && (k == "alpha" || k == "threshold") {
+				x[k] = float32(f) // (32 bit floats in the schema types)
+				continue
+			}
 			// query vectors and weights are 32 bit floats in the request types: the decoder takes nothing wider
 			if under == "vectorFlat" || under == "vectorVamana" || under == "text" || (v1Vectors && k == "vector") {
-				if f, ok := e.(float64); ok && k == "weight" {
+				if f, ok := e.(float64); ok && (k == "weight") {
 					x[k] = float32(f)
 					continue
 				}
